@@ -426,6 +426,9 @@ class C15(PathsBase):
                 continue
             if oracles.is_err(dag):
                 fails.append(F("C15.raised", query=[u, v, s, e], got=dag)); continue
+            if isinstance(dag, str):
+                # the impl-side cross check of op_dag: bounds that are not ids / not integers
+                fails.append(F("C15.window_bounds", query=[u, v, s, e], got=dag)); continue
             s2 = ids[0] if s is None else s
             e2 = ids[-1] if e is None else e
             W = [t for t in ids if s2 <= t <= e2]
